@@ -131,6 +131,10 @@ pub trait Subject {
     fn push(&mut self, _child: Cid, _how: PushHow) -> PushOut {
         panic!("harness bug: push on a subject without push")
     }
+    /// `Extend::extend` with freshly created children; false = the subject has no `Extend`
+    fn extend(&mut self, _children: &[Cid]) -> bool {
+        false
+    }
     fn obs(&self) -> Obs;
     fn relocate(self: Box<Self>) -> Box<dyn Subject>;
     fn can_move(&self) -> bool {
@@ -259,6 +263,10 @@ impl Subject for SOB {
                 }
         }
     }
+    fn extend(&mut self, children: &[Cid]) -> bool {
+        self.0.extend(children.iter().map(|&c| ScriptFut::<Plain>::new(c)));
+        true
+    }
     fn obs(&self) -> Obs {
         Obs {
             len: Some(self.0.len()),
@@ -286,6 +294,10 @@ impl Subject for SOU {
             PushHow::Front | PushHow::TryFront => self.0.push_front(f),
         }
         PushOut::Accepted
+    }
+    fn extend(&mut self, children: &[Cid]) -> bool {
+        self.0.extend(children.iter().map(|&c| ScriptFut::<Plain>::new(c)));
+        true
     }
     fn obs(&self) -> Obs {
         Obs {
